@@ -280,7 +280,8 @@ fn main() {
             }
         }
     }
-    vh::util::emit(&json!({"kind": "summary", "lines": total, "runs": results.len(), "steps": steps, "compared": compared,
+    let fds_open = std::fs::read_dir("/proc/self/fd").map(|d| d.count()).unwrap_or(0);
+    vh::util::emit(&json!({"kind": "summary", "fds_open": fds_open, "lines": total, "runs": results.len(), "steps": steps, "compared": compared,
         "violations": nviol, "classes": classes, "aborted": failing.load(Ordering::SeqCst) >= 40, "samples": samples,
         "wall_s": t0.elapsed().as_secs_f64()}));
 }
